@@ -184,7 +184,14 @@ def gen_history(rng, big):
             ls = rng.choice([0, 0, 0, 0, 5])
             if ls:
                 tags.add("loop-start")
-            ops.append("R %d %d %d %d %d %d 0 f:%d:%d" % (start, size, ls, 0, rng.choice([8000, 17500]), rng.choice([0, 4294967236]), n, seed))
+            if n <= 48 and rng.random() < 0.08:
+                # stored data followed by zero bytes: must not be matched against unallocated rom behind an earlier sample
+                k = rng.choice([1, 2, 4, 9])
+                body = bytes((seed + 31 * i + i // 256) & 255 for i in range(n)) + bytes(k)
+                ops.append("R 0 %d %d 0 8000 0 0 h:%s" % (n + k, ls, body.hex()))
+                tags.add("zero-tail")
+            else:
+                ops.append("R %d %d %d %d %d %d 0 f:%d:%d" % (start, size, ls, 0, rng.choice([8000, 17500]), rng.choice([0, 4294967236]), n, seed))
             tags.add("raw-add")
             if n == 0:
                 tags.add("zero-length")
